@@ -355,9 +355,22 @@ package desync
 
 // ---------------------------------------------------------------------------- C07: remaining feeders
 
+//@ ghost var $regen bool
+//# a segment of an index with offsets and sizes below 2^62 (conversions to int64 are exact)
+//@ spec func segOK(g IndexSegment) bool = 0 <= g.first && g.first <= g.last && g.last < len(g.index.Chunks) && offsetsBounded(g.index.Chunks)
 //@ func AssembleFile
-//@   prop C07
+//@   prop C07 C01
 //@   safety none
+//@   requires offsetsBounded(idx.Chunks)
+//# C01, worker: a segment copied or cloned from a seed is recorded as written only after every chunk of it
+//# was read back from the target and its digest compared with the chunk's ID; a mismatch ends the worker
+//# with an error unless the caller asked for regeneration, in which case the chunk goes through writeChunk
+//@   lit 1: ghost@loop1.head $regen = false
+//@   lit 1: ghost@after:writeChunk $regen = true
+//@   lit 1: loop 2: invariant @C01 $regen || !segOK(job.segment) || chunksMatch(f, job.segment.index.Chunks[job.segment.first : job.segment.first + $i])
+//@   lit 1: assert@loop2.exit @C01 $regen || !segOK(job.segment) || chunksMatch(f, job.segment.index.Chunks[job.segment.first : job.segment.last + 1])
+//# the target is given the indexed length before anything is written (block devices keep their size)
+//@   oncall Truncate: requires @C01 $arg0 == name && $arg1 == indexLength(idx)
 //@   ghost@entry $eof = false
 //@   ghost@loop3.exit $eof = true
 //@   ensures r1 == nil ==> $eof
